@@ -156,7 +156,7 @@ GLOB_MODELLED = [
 ]
 
 PROPS = {
-    "C05": {"engine": "glob", "extra_engines": ["env"], "modelled": GLOB_MODELLED,
+    "C05": {"engine": "glob", "extra_engines": ["env"], "extra_props": ["FactsGlob"], "modelled": GLOB_MODELLED,
             "assumptions": ["the tree is not modified while it is being expanded",
                             "reading fixed: a pattern segment that is followed by '/' denotes a directory, so 'sub/**' does not denote a regular file called 'sub' "
                             "(doublestar.Match alone says it does; GlobWalk, bash and the specification matcher say it does not)"]},
